@@ -411,6 +411,8 @@ func metaProps(key string) []string {
 		ps = []string{"C20"}
 	case strings.Contains(key, "multiparty"):
 		ps = []string{"C16"}
+	case strings.Contains(key, "core/rlwe.(Encryptor)") || strings.Contains(key, "core/rlwe.(Decryptor)"):
+		ps = []string{"C03", "C04"}
 	}
 	if strings.Contains(key, "inner_sum") || strings.Contains(key, "Automorphism") || strings.Contains(key, "Trace") || strings.Contains(key, "Replicate") || strings.Contains(key, "InnerSum") || strings.Contains(key, "Rotate") || strings.Contains(key, "Average") || strings.Contains(key, "InnerFunction") || strings.Contains(key, "Conjugate") {
 		ps = append(ps, "C11")
